@@ -47,6 +47,8 @@ def subspaces(tier):
     out += C.structure_subspaces(s3 + [(2, 2)], 2, False, canonical=True, filter="default_pair", second=True)
     out += C.structure_subspaces(s3 + [(2, 2), (2, 1, 1)], 2, False, filter="none", probe=True)
     out += C.structure_subspaces(D.shapes(2, 2), 2, True, only_flexible=True, filter="none", second=True)
+    for f in ("none", "default_pair"):
+        out += C.wide_subspaces(filter=f)
     if tier == "thorough":
         s4only = [s for s in s4 if sum(s) == 4]
         for f in filters:
